@@ -52,6 +52,9 @@ pub fn evolve(prev: &World, version: usize, rng: &mut Rng, em: Emphasis) -> Worl
         cc.mft_this += dt; cc.crl_this = cc.mft_this; cc.mft_ee_nb = cc.mft_this - 60;
         cc.mft_serial += 1;
         // objects: replace marker, sometimes add/remove others
+        // the replaced marker's EE certificate is revoked by the new version's CRL, as a CA does with what it replaces
+        if let Some(old) = cc.objects.iter().find(|o| o.name == "marker.roa") { let s = old.serial; if !cc.also_revoked.contains(&s) { cc.also_revoked.push(s); } }
+        if cc.also_revoked.len() > 6 { cc.also_revoked.remove(0); }
         cc.objects.retain(|o| o.name != "marker.roa");
         let mut m = marker(c, version); m.nb = now - DAY; m.na = now + 50 * DAY;
         cc.objects.push(m);
@@ -130,14 +133,37 @@ pub fn run_hist(ctx: &mut Ctx, rep: &mut Report, prop: &'static str, em: Emphasi
         let mut w = base.clone();
         let mut stored_numbers: BTreeMap<String, (u64, i64)> = BTreeMap::new();
         let mut trace: Vec<String> = Vec::new();
+        // Ordering histories also move the wall clock: a version with a short-lived manifest/CRL is stored, the clock
+        // passes its nextUpdate, and the server then offers an older (or equal-numbered) manifest that is still current.
+        let mut offset: i64 = 0;
+        let mut short_lived: Option<usize> = None;
+        let long_next = base.cas[0].mft_next;
         for k in 0..steps {
             w = evolve(&w, k, &mut rng, em);
+            if em == Emphasis::Ordering {
+                if let Some(c) = short_lived.take() {
+                    // the previous step stored a short-lived version of CA c: its time is up now
+                    offset += 3 * 3600;
+                    let cc = &mut w.cas[c];
+                    cc.mft_next = long_next; cc.crl_next = long_next;
+                }
+                else if k + 1 < steps && rng.chance(1, 3) {
+                    let c = rng.usize(w.cas.len());
+                    if w.cas[c].alias_of.is_none() && w.cas[c].point_faults.is_empty() {
+                        let cc = &mut w.cas[c];
+                        cc.mft_next = w.now + offset + 3600; cc.crl_next = cc.mft_next;
+                        short_lived = Some(c);
+                    }
+                }
+            }
+            crate::clock::set_offset(offset);
             // C03: repeat the same step several times with different shuffles? The engine shuffles itself.
             let p = b.publish(&w);
             env.serve(&p);
-            ctx.begin_case(&json!({"history": h, "step": k}));
+            ctx.begin_case(&json!({"history": h, "step": k, "clock_offset": offset}));
             let out = run_engine(&env.config, true, &LocalExceptions::empty());
-            let e = model.step(w.clone(), p.clone(), w.now, &pol, true);
+            crate::clock::set_offset(0);
+            let e = model.step(w.clone(), p.clone(), w.now + offset, &pol, true);
             rep.eval();
             trace.push(format!("step {k}: {:?}", model.decisions));
             let replay = json!({"base_world": base, "emphasis": em as u8 as u64, "steps_so_far": k + 1, "decisions": trace, "last_world": w, "policy": format!("{:?}", pol), "seed": ctx.seed, "shard": ctx.shard});
@@ -273,7 +299,7 @@ pub const C05: Check = Check {
     id: "C05",
     level: "exploration",
     rule: "histories where consecutive validly signed versions have manifest number / thisUpdate increasing, equal number with later \
-           time, later number with equal time, decreasing (replays of older numbers and times), and jumps. Oracle: the fetched \
+           time, later number with equal time, decreasing (replays of older numbers and times), and jumps; in a third of the histories a short-lived version is stored, the virtual clock moves past its nextUpdate and an older, still current manifest is replayed. Oracle: the fetched \
            version replaces the stored one only if both number and thisUpdate are strictly greater; the stored manifest number and \
            thisUpdate read back after each run never decrease; payload follows the model. distinct = (decision with reason) classes",
     assumptions: &["the 'stored copy internally inconsistent' exception is not generated"],
